@@ -5,19 +5,37 @@ mod verif_ctor {
 
     const MAXLEN: usize = 4;
 
-    /// Largest offset over the integers (u128), None if there are no elements.
-    fn z_max_offset(shape: &[usize], strides: &[usize]) -> Option<u128> {
-        let mut m: u128 = 0;
+    /// valid(t): every in-bounds index maps (over the integers) to an offset < storage length.
+    /// Computed with checked usize arithmetic: the integer maximum offset sum (shape-1)*stride is
+    /// < storage_len (<= 4) iff no step overflows and the checked sum is < storage_len.
+    fn valid(shape: &[usize], strides: &[usize], storage_len: usize) -> bool {
+        let mut m: Option<usize> = Some(0);
         let mut empty = false;
         for i in 0..shape.len() {
-            if shape[i] == 0 { empty = true; } else { m = m.saturating_add((shape[i] as u128 - 1) * (strides[i] as u128)); }
+            if shape[i] == 0 {
+                empty = true;
+            } else {
+                m = match m {
+                    Some(acc) => match (shape[i] - 1).checked_mul(strides[i]) {
+                        Some(t) => acc.checked_add(t),
+                        None => None,
+                    },
+                    None => None,
+                };
+            }
         }
-        if empty { None } else { Some(m) }
+        if empty { true } else { match m { Some(m) => m < storage_len, None => false } }
     }
 
-    /// valid(t): every in-bounds index maps (over the integers) to an offset < storage length.
-    fn valid(shape: &[usize], strides: &[usize], storage_len: usize) -> bool {
-        match z_max_offset(shape, strides) { None => true, Some(m) => m < storage_len as u128 }
+    /// number of elements over the integers equals `len` (len <= 4)
+    fn count_is(shape: &[usize], len: usize) -> bool {
+        let mut c: Option<usize> = Some(1);
+        let mut zero = false;
+        for i in 0..shape.len() {
+            if shape[i] == 0 { zero = true; }
+            c = match c { Some(acc) => acc.checked_mul(shape[i]), None => None };
+        }
+        if zero { len == 0 } else { c == Some(len) }
     }
 
     /// Stand-in for std's sort_unstable inside may_have_internal_overlap (see U-overlap, where the
@@ -55,15 +73,11 @@ mod verif_ctor {
                 if let Ok(t) = res {
                     let st = t.strides();
                     assert!(valid(&shape, &st, len), "accepted tensor can index past its storage");
-                    let mut count: u128 = 1;
-                    for i in 0..$n { count = count.saturating_mul(shape[i] as u128); }
-                    assert!(count == len as u128, "element count matches the backing data");
+                    assert!(count_is(&shape, len), "element count matches the backing data");
                     kani::cover!(len == 4);
                 } else {
                     // never rejects a matching shape
-                    let mut count: u128 = 1;
-                    for i in 0..$n { count = count.saturating_mul(shape[i] as u128); }
-                    assert!(count != len as u128, "matching shape/data rejected");
+                    assert!(!count_is(&shape, len), "matching shape/data rejected");
                 }
             }
 
@@ -123,10 +137,11 @@ mod verif_ctor {
             match v.get(idx) {
                 Some(x) => {
                     assert!(inb);
-                    let off = (idx[0] as u128 * strides[0] as u128).saturating_add(idx[1] as u128 * strides[1] as u128);
-                    assert!(off < len as u128);
-                    assert!(*x == buf[off as usize]);
-                    kani::cover!(off > 0);
+                    // in-bounds index of a valid view: products are <= max offset < len <= 4
+                    let off = idx[0].checked_mul(strides[0]).and_then(|a| idx[1].checked_mul(strides[1]).and_then(|b| a.checked_add(b)));
+                    assert!(off.is_some() && off.unwrap() < len, "read outside the buffer");
+                    assert!(*x == buf[off.unwrap()]);
+                    kani::cover!(off.unwrap() > 0);
                 }
                 None => assert!(!inb),
             }
